@@ -188,41 +188,190 @@ def elem_class(e) -> str:
     return kind
 
 
-def check_element(rec: Rec, e, label: str, key):
-    """All oracles for one reference element."""
-    from bumble.sdp import DataElement
+PARSER_STATE_SIG = {'unit': 'DataElementParser', 'how': 'nesting_counter_not_restored_after_parse'}
 
-    case = {'unit': 'data_element', 'label': label}
+
+def eval_element(e, label: str):
+    """All oracles for one reference element.  None if they hold, else
+    (check, signature-extras, message)."""
+    from bumble.sdp import DataElement, DataElementParser
+
     ref = ref_de(e)
-    sigbase = {'unit': 'DataElement', 'element': elem_class(e), 'case': label}
     try:
         wire = bytes(build(e))
     except Exception as x:
-        return rec.bad(key, 'sdp_element', dict(sigbase, how=f'exception:{cm.exc_name(x)}', stage='serialise'), f'{label}: serialising raised {cm.exc_name(x)}: {x}', case)
+        return ('sdp_element', {'how': f'exception:{cm.exc_name(x)}', 'stage': 'serialise'}, f'{label}: serialising raised {cm.exc_name(x)}: {x}')
     if wire != ref:
-        return rec.bad(key, 'sdp_element', dict(sigbase, how='bytes_differ_from_spec_encoding'), f'{label}: serialised {cm.short(wire)} spec encoding {cm.short(ref)} ({cm.bytes_diff(ref, wire)})', case)
+        return ('sdp_element', {'how': 'bytes_differ_from_spec_encoding'}, f'{label}: serialised {cm.short(wire)} spec encoding {cm.short(ref)} ({cm.bytes_diff(ref, wire)})')
     try:
         p = DataElement.from_bytes(ref)
         end, p_off = DataElement.parse_from_bytes(b'\x00\x00\x00' + ref + b'\x35\x00', 3)
+        # the parser object itself: every internal counter must be back where it started
+        parser = DataElementParser(ref)
+        p_direct = parser.parse_next()
     except Exception as x:
-        return rec.bad(key, 'sdp_element', dict(sigbase, how=f'exception:{cm.exc_name(x)}', stage='parse'), f'{label}: parsing {cm.short(ref)} raised {cm.exc_name(x)}: {x}', case)
-    r = cmp_de(e, p) or cmp_de(e, p_off)
+        return ('sdp_element', {'how': f'exception:{cm.exc_name(x)}', 'stage': 'parse'}, f'{label}: serialises to {cm.short(ref)} but parsing raised {cm.exc_name(x)}: {x}')
+    r = cmp_de(e, p) or cmp_de(e, p_off) or cmp_de(e, p_direct)
     if r:
         if cm.reason_kind(r) == 'uuid_width':
-            return rec.bad(key, 'uuid_width_alias', cm.UUID_ALIAS_SIG, f'sdp {label}: bytes->parse: {r}', case)
-        return rec.bad(key, 'sdp_element', dict(sigbase, how='parsed_value_differs'), f'{label}: bytes->parse: {r}', case)
+            return ('uuid_width_alias', None, f'sdp {label}: bytes->parse: {r}')
+        return ('sdp_element', {'how': 'parsed_value_differs'}, f'{label}: bytes->parse: {r}')
     if end != 3 + len(ref):
-        return rec.bad(key, 'sdp_element', dict(sigbase, how='end_offset'), f'{label}: parse_from_bytes consumed up to {end}, element ends at {3 + len(ref)}', case)
+        return ('sdp_element', {'how': 'end_offset'}, f'{label}: parse_from_bytes consumed up to {end}, element ends at {3 + len(ref)}')
+    if parser.depth != 0 or parser.offset != len(ref):
+        return ('sdp_parser_state', None, f'{label}: after parsing one complete element ({cm.short(ref)}) the parser is left with depth={parser.depth} offset={parser.offset}/{len(ref)}; a parser that has finished a top-level element must be at depth 0')
     try:
         again = bytes(fresh_de(p))
         direct = bytes(p_off)
     except Exception as x:
-        return rec.bad(key, 'sdp_element', dict(sigbase, how=f'exception:{cm.exc_name(x)}', stage='reserialise'), f'{label}: re-serialising raised {cm.exc_name(x)}: {x}', case)
+        return ('sdp_element', {'how': f'exception:{cm.exc_name(x)}', 'stage': 'reserialise'}, f'{label}: re-serialising raised {cm.exc_name(x)}: {x}')
     if again != ref:
-        return rec.bad(key, 'sdp_element', dict(sigbase, how='rebuild_bytes_differ'), f'{label}: parse->rebuild->bytes {cm.short(again)} != {cm.short(ref)} ({cm.bytes_diff(ref, again)})', case)
+        return ('sdp_element', {'how': 'rebuild_bytes_differ'}, f'{label}: parse->rebuild->bytes {cm.short(again)} != {cm.short(ref)} ({cm.bytes_diff(ref, again)})')
     if direct != ref:
-        return rec.bad(key, 'sdp_element', dict(sigbase, how='reserialise_bytes_differ'), f'{label}: bytes(parsed) {cm.short(direct)} != {cm.short(ref)}', case)
-    rec.ok(key)
+        return ('sdp_element', {'how': 'reserialise_bytes_differ'}, f'{label}: bytes(parsed) {cm.short(direct)} != {cm.short(ref)}')
+    return None
+
+
+def file_result(rec: Rec, key, e, label: str, res, sig_case: str | None = None):
+    case = {'unit': 'data_element', 'label': label}
+    if res is None:
+        return rec.ok(key)
+    check, extra, msg = res
+    if check == 'uuid_width_alias':
+        return rec.bad(key, check, cm.UUID_ALIAS_SIG, msg, case)
+    if check == 'sdp_parser_state':
+        return rec.bad(key, check, PARSER_STATE_SIG, msg, case)
+    rec.bad(key, check, dict({'unit': 'DataElement', 'element': elem_class(e), 'case': sig_case or label}, **extra), msg, case)
+
+
+def check_element(rec: Rec, e, label: str, key):
+    file_result(rec, key, e, label, eval_element(e, label))
+
+
+# ---------------------------------------------------------------------------
+# wide (many children) rather than deep trees
+# ---------------------------------------------------------------------------
+WIDE_N = [0, 1, 2, 31, 32, 33, 64]
+WIDE_CHILDREN = {
+    'empty_seq': ('seq', []),
+    'empty_alt': ('alt', []),
+    'seq1': ('seq', [('uint', 1, 7)]),
+    'nil': ('nil',),
+    'uint16': ('uint', 2, 0x0100),
+}
+
+
+def wrap(e, outer_depth: int):
+    """Put `e` at nesting level `outer_depth` (1 = top level)."""
+    for _ in range(outer_depth - 1):
+        e = ('seq', [e])
+    return e
+
+
+def wide_cases():
+    out = []
+    kinds = list(WIDE_CHILDREN)
+    for outer in ('seq', 'alt'):
+        for depth in (1, 2, 3):
+            for n in WIDE_N:
+                for ck, child in WIDE_CHILDREN.items():
+                    out.append(({'outer': outer, 'outer_depth': depth, 'children': n, 'child': ck}, wrap((outer, [child] * n), depth)))
+                if n >= 2:
+                    mixed = [WIDE_CHILDREN[kinds[i % len(kinds)]] for i in range(n)]
+                    out.append(({'outer': outer, 'outer_depth': depth, 'children': n, 'child': 'mixed'}, wrap((outer, mixed), depth)))
+    return out
+
+
+def service_records(n: int, empty_kind='seq'):
+    """n service records (attribute id / value pairs), each with an optional list attribute
+    that is present but empty - real nesting depth 3."""
+    return ('seq', [
+        ('seq', [
+            ('uint', 2, 0x0000), ('uint', 4, 0x00010000 + i),
+            ('uint', 2, 0x0001), ('seq', [('uuid', (0x1101).to_bytes(2, 'little'))]),
+            ('uint', 2, 0x0005), (empty_kind, []),
+        ])
+        for i in range(n)
+    ])
+
+
+def check_wide(rec: Rec):
+    cases = wide_cases()
+    results = []
+    for c, e in rec.seq(cases):
+        label = f"wide:{c['outer']}@{c['outer_depth']}x{c['children']}:{c['child']}"
+        res = eval_element(e, label)
+        results.append((c, e, label, res))
+        key = ('de_wide', c['outer'], c['outer_depth'], c['children'], c['child'])
+        if res is None:
+            rec.ok(key)
+        elif res[0] in ('uuid_width_alias', 'sdp_parser_state'):
+            file_result(rec, key, e, label, res)
+        else:
+            rec.st.case(key)
+            if rec.keep:
+                rec._out(key, res[0] + ':' + cm.core.canon_json(res[1]))
+    # one violation per failure mode, characterised over the whole product space
+    modes = sorted({(r[0], cm.core.canon_json(r[1])) for _, _, _, r in results if r and r[0] == 'sdp_element'})
+    proj = [dict(c, **{'child_is_empty_container': c['child'] in ('empty_seq', 'empty_alt'), 'children>=31': c['children'] >= 31}) for c, _, _, _ in results]
+    for check, extra_json in modes:
+        failing = [bool(r and r[0] == check and cm.core.canon_json(r[1]) == extra_json) for _, _, _, r in results]
+        when = cm.explain(proj, failing)
+        lst = [(c, r[2]) for (c, _, _, r), bad in zip(results, failing) if bad]
+        c0, m0 = lst[0] if rec.order > 0 else lst[-1]
+        import json as _json
+
+        sig = dict({'unit': 'DataElement', 'shape': 'wide_container', 'failing_when': when if when is not None else 'no simple characterisation'}, **_json.loads(extra_json))
+        rec.st.violation('sdp_element', sig, f'wide SDP containers: {len(lst)} of {len(results)} shapes fail exactly when {when}; e.g. {c0}: {m0}', {'unit': 'de_wide', 'c': c0})
+    # realistic wide-and-shallow values
+    for n in rec.seq([1, 30, 36, 64]):
+        for kind in ('seq', 'alt'):
+            label = f'records{n}:{kind}'
+            e = service_records(n, kind)
+            file_result(rec, ('de_records', n, kind), e, label, eval_element(e, label), sig_case=f'service_records_with_empty_{kind}')
+    rec.st.count('wide_shapes', len(cases))
+    rec.st.samples.append({'wide_trees': len(cases), 'children': WIDE_N, 'child_kinds': list(WIDE_CHILDREN) + ['mixed'], 'outer_depths': [1, 2, 3]})
+    # canonical (visiting-order independent) list for the back-to-back grouping
+    return [(f"wide:{c['outer']}@{c['outer_depth']}x{c['children']}:{c['child']}", e) for c, e in cases]
+
+
+def check_back_to_back(rec: Rec, items):
+    """Several complete values one after the other through ONE parser object (what a
+    caller walking an attribute list does): each must come out equal, the parser must be
+    at depth 0 between values and must end exactly at the end of the buffer."""
+    from bumble.sdp import DataElementParser
+
+    items = list(items)
+    groups = [items[i : i + 3] for i in range(0, len(items), 3)]
+    n = 0
+    for g in rec.seq(groups):
+        key = ('de_b2b', tuple(l for l, _ in g))
+        data = b''.join(ref_de(e) for _, e in g)
+        n += 1
+        case = {'unit': 'de_b2b', 'labels': [l for l, _ in g]}
+        try:
+            parser = DataElementParser(data)
+            bad = None
+            for label, e in g:
+                d = parser.parse_next()
+                r = cmp_de(e, d)
+                if r:
+                    bad = ('sdp_element', f'{label} (parsed after {g[0][0]}...): {r}')
+                    break
+                if parser.depth != 0:
+                    bad = ('sdp_parser_state', f'after {label} the shared parser is at depth {parser.depth}, not 0')
+                    break
+            if bad is None and parser.offset != len(data):
+                bad = ('sdp_element', f'parser stops at {parser.offset} of {len(data)}')
+        except Exception as x:
+            bad = ('sdp_element', f'values {[l for l, _ in g]} each serialise and parse alone, but parsing them back-to-back with one parser raised {cm.exc_name(x)}: {x}')
+        if bad is None:
+            rec.ok(key)
+        elif bad[0] == 'sdp_parser_state':
+            rec.bad(key, 'sdp_parser_state', PARSER_STATE_SIG, bad[1], case)
+        else:
+            rec.bad(key, 'sdp_element', {'unit': 'DataElementParser', 'how': 'back_to_back_parse_differs'}, bad[1], case)
+    rec.st.count('back_to_back_groups', n)
 
 
 def check_refusal(rec: Rec, label: str, key, make, ref: bytes):
@@ -260,6 +409,9 @@ def check_elements(rec: Rec, big: bool):
         check_element(rec, e, label, ('de', label))
         st.add('element_classes', elem_class(e))
     st.count('elements', len(items))
+    wide = check_wide(rec)
+    small = [(l, e) for l, e in items if len(ref_de(e)) < 2000]
+    check_back_to_back(rec, small + wide)
     # past the documented nesting limit: parser refuses by design (hardening); counted, not judged
     e = nested(limit + 1)
     try:
@@ -323,6 +475,12 @@ class SdpAdapter(Adapter):
                 ('len256', sized_container('seq', 256, rec)),
                 ('uuid32', ('seq', [('uuid', cm.CUSTOM32.to_bytes(4, 'little'))])),
                 ('alias128', ('seq', [('uuid', cm.BASE_LE + cm.REG16.to_bytes(2, 'little') + b'\x00\x00')])),
+                # wide rather than deep lists
+                ('wide33_empty_alt', ('seq', [('alt', [])] * 33 + [('seq', [('uint', 2, 4)])])),
+                ('wide64_empty_seq', ('seq', [('seq', [])] * 64)),
+                ('wide32_seq1', ('seq', [('seq', [('uint', 1, 7)])] * 32)),
+                ('wide64_mixed', ('seq', [list(WIDE_CHILDREN.values())[i % 5] for i in range(64)])),
+                ('wide31_nil@3', wrap(('alt', [('nil',)] * 31), 3)),
             ]
             return [(l, DEValue(e), ref_de(e)) for l, e in els]
         if name == 'service_record_handle_list':
@@ -352,6 +510,49 @@ class SdpAdapter(Adapter):
         return cls(**{n: cm.fresh(getattr(parsed, n)) for n in names})
 
 
+def check_pdu_attribute_lists(rec: Rec):
+    """Responses carry their data-element list as a length-prefixed byte field: what the
+    PDU hands back must still parse to the tree that went in (this is what sdp.Client does)."""
+    from bumble import sdp
+
+    trees = [
+        ('records1', service_records(1)),
+        ('records36_empty_seq', service_records(36, 'seq')),
+        ('records36_empty_alt', service_records(36, 'alt')),
+        ('wide64_empty_seq', ('seq', [('seq', [])] * 64)),
+        ('wide33_mixed', ('seq', [list(WIDE_CHILDREN.values())[i % 5] for i in range(33)])),
+        ('lists_of_lists', ('seq', [service_records(12, 'seq'), service_records(12, 'alt'), service_records(12, 'seq')])),
+    ]
+    for cls, field in rec.seq([(sdp.SDP_ServiceAttributeResponse, 'attribute_list'), (sdp.SDP_ServiceSearchAttributeResponse, 'attribute_lists')]):
+        for label, e in rec.seq(trees):
+            key = ('sdp_pdu_list', cls.__name__, label)
+            case = {'unit': 'sdp_pdu_list', 'cls': cls.__name__, 'label': label}
+            body = ref_de(e)
+            ref = bytes([int(cls.pdu_id)]) + (9).to_bytes(2, 'big') + (2 + len(body) + 1).to_bytes(2, 'big') + len(body).to_bytes(2, 'big') + body + b'\x00'
+            sig = {'unit': cls.__name__, 'field': field, 'tree': label}
+            try:
+                wire = bytes(cls(transaction_id=9, **{field: bytes(build(e)), 'continuation_state': b'\x00'}))
+                if wire != ref:
+                    rec.bad(key, 'sdp_pdu_list', dict(sig, how='bytes_differ_from_spec_encoding'), f'{cls.__name__} {label}: {cm.bytes_diff(ref, wire)}', case)
+                    continue
+                p = sdp.SDP_PDU.from_bytes(ref)
+                parser = sdp.DataElementParser(getattr(p, field))
+                d = parser.parse_next()
+                r = cmp_de(e, d)
+                state = (parser.depth, parser.offset == len(body))
+                again = bytes(cls(transaction_id=p.transaction_id, **{field: bytes(fresh_de(d)), 'continuation_state': p.continuation_state}))
+            except Exception as x:
+                rec.bad(key, 'sdp_pdu_list', dict(sig, how=f'exception:{cm.exc_name(x)}'), f'{cls.__name__} carrying {label}: serialises, but reading the list back raised {cm.exc_name(x)}: {x}', case)
+                continue
+            if r or again != ref:
+                rec.bad(key, 'sdp_pdu_list', dict(sig, how='mismatch'), f'{cls.__name__} {label}: {r or cm.bytes_diff(ref, again)}', case)
+            elif state != (0, True):
+                rec.bad(key, 'sdp_parser_state', PARSER_STATE_SIG, f'{cls.__name__} {label}: parser left at depth {state[0]}', case)
+            else:
+                rec.ok(key)
+
+
 def run(rec: Rec, k: int, big: bool):
     check_elements(rec, big)
     cm.run_adapter(SdpAdapter(big), rec, k)
+    check_pdu_attribute_lists(rec)
